@@ -240,11 +240,12 @@ func (rd *HandlingDataManager) initializeStreams() (err error) {
 	if err != nil {
 		return fmt.Errorf("failed to create stream: %w", err)
 	}
-	rd.stream = stream
-	rd.stream.WithHub(rd.lunarHub)
-	if err = rd.stream.Initialize(); err != nil {
+	stream.WithHub(rd.lunarHub)
+	if err = stream.Initialize(); err != nil {
 		return fmt.Errorf("failed to initialize streams: %w", err)
 	}
+	// The engine serves transactions only once it is fully built.
+	rd.stream = stream
 
 	rd.stream.InitializeHubCommunication()
 	if err = config.WaitForProxyHealthcheck(); err != nil {
